@@ -140,6 +140,104 @@ func runC46(p *core.Prog, r *core.Report) {
 	}})
 	// decoded guard is required for Put too
 	core.CheckEffectsFn(p, r3, restore, core.EffectRule{Min: 1, Guards: []core.Guard{unm}, Effect: core.CallTo("(*pkg/local_object_storage/shard.Shard).Put")})
+	// R4 record buffer provenance
+	r4 := r.Rule("C46.R4", "the bytes decoded as one record are exactly the bytes read for it in this iteration: a slice of the record's length filled by a successful full read of that same slice, or an accumulating buffer that is empty before each fill of the record's length", 2)
+	isSz := func(v ssa.Value) bool {
+		c, ok := core.Unwrap(v).(*ssa.Call)
+		return ok && core.CalleeName(c) == "(encoding/binary.littleEndian).Uint32"
+	}
+	var lenIsSz func(v ssa.Value, d int) bool
+	lenIsSz = func(v ssa.Value, d int) bool {
+		if d > 6 {
+			return false
+		}
+		switch x := v.(type) {
+		case *ssa.MakeSlice:
+			return isSz(x.Len)
+		case *ssa.Slice:
+			return x.Low == nil && x.High != nil && isSz(x.High)
+		case *ssa.Phi:
+			n := 0
+			for _, e := range x.Edges {
+				if e == v {
+					continue
+				}
+				if !lenIsSz(e, d+1) {
+					return false
+				}
+				n++
+			}
+			return n > 0
+		}
+		return false
+	}
+	for _, s := range core.CallSites([]*ssa.Function{restore}, func(s core.Site) bool {
+		return s.Name == "(*github.com/nspcc-dev/neofs-sdk-go/object.Object).Unmarshal"
+	}) {
+		key := core.FuncName(restore) + "#Unmarshal"
+		arg := s.Call.Common().Args[1]
+		um := s.Call
+		only := func(p *core.Prog, in ssa.Instruction) (string, bool) { return "Unmarshal", in == um.(ssa.Instruction) }
+		if bc, ok := arg.(*ssa.Call); ok && core.CalleeName(bc) == "(*bytes.Buffer).Bytes" {
+			buf := bc.Call.Args[0]
+			touches := func(c ssa.CallInstruction) bool {
+				for _, a := range core.Args(c) {
+					if core.Unwrap(a) == buf {
+						return true
+					}
+				}
+				return false
+			}
+			eff := func(in ssa.Instruction) int {
+				c, ok := in.(ssa.CallInstruction)
+				if !ok || !touches(c) {
+					return 0
+				}
+				switch core.CalleeName(c) {
+				case "(*bytes.Buffer).Reset":
+					return 1
+				case "(*bytes.Buffer).Truncate":
+					if z, ok := intConstOf(c.Common().Args[1]); ok && z == 0 {
+						return 1
+					}
+					return 0
+				case "(*bytes.Buffer).Bytes", "(*bytes.Buffer).Len", "(*bytes.Buffer).String", "(*bytes.Buffer).Cap", "(*bytes.Buffer).Grow":
+					return 0
+				}
+				return -1
+			}
+			ff := core.NewFlagFlow(restore, true, eff)
+			nw := 0
+			for _, b := range restore.Blocks {
+				for _, in := range b.Instrs {
+					if eff(in) != -1 {
+						continue
+					}
+					nw++
+					c := in.(ssa.CallInstruction)
+					r4.Check(ff.Before(in), key+"#fill["+core.CalleeName(c)+"]!buffer-empty", p.InstrPos(in), "the accumulating buffer is empty (reset since the previous record) on every path to this fill", "the record buffer is filled on a path where the previous record's bytes were not discarded (no Reset on some path between two fills): the next record is decoded together with stale bytes")
+					if core.CalleeName(c) == "io.CopyN" && isSz(c.Common().Args[2]) {
+						r4.OK(key+"#fill!record-length", p.InstrPos(in), "exactly the record's length is copied")
+					} else {
+						r4.Unknown(key+"#fill!record-length", p.InstrPos(in), "the rule recognises only io.CopyN(&buf, r, int64(sz)) as the fill of an accumulating record buffer")
+					}
+				}
+			}
+			if nw == 0 {
+				r4.Bad(key+"!record-read", p.InstrPos(um), "the decoded buffer is never filled from the stream")
+			}
+			core.CheckEffectsFn(p, r4, restore, core.EffectRule{Min: 1, Effect: only, Guards: []core.Guard{
+				core.G("record-read", core.ErrNil, "io.CopyN").Where(func(s core.Site) bool { return touches(s.Call) })}})
+			continue
+		}
+		if !lenIsSz(arg, 0) {
+			r4.Unknown(key+"!record-length", p.InstrPos(um), "the decoded value is neither a slice made/resliced to the record length read from the stream nor the contents of an accumulating buffer; the rule does not recognise this shape")
+			continue
+		}
+		r4.OK(key+"!record-length", p.InstrPos(um), "the decoded slice is make([]byte, sz) or data[:sz] with sz the little-endian length just read")
+		core.CheckEffectsFn(p, r4, restore, core.EffectRule{Min: 1, Effect: only, Guards: []core.Guard{
+			core.G("record-read", core.ErrNil, "io.ReadFull").Where(func(s core.Site) bool { return s.Call.Common().Args[1] == arg })}})
+	}
 }
 
 // flowsTo: v reaches target through phis only.
